@@ -479,7 +479,14 @@ fn child_main(r: &mut Rng, tier: &str) -> ! {
     let dump = std::env::var("VERIF_DET_DUMP").ok();
     let so = std::io::stdout();
     let mut so = so.lock();
-    for (k, s) in scens.iter().enumerate() {
+    // every second fresh process runs the scenario list in REVERSE order (and prints it in the usual one): a result that
+    // depends on what ran earlier in the process or on the thread (a cache, a search hint, a counter kept in a static or
+    // thread-local) then differs from the parent's, which ran the list forwards
+    let reverse = std::env::var("VERIF_DET_ORDER").map(|v| v == "rev").unwrap_or(false);
+    let order: Vec<usize> = if reverse { (0..scens.len()).rev().collect() } else { (0..scens.len()).collect() };
+    let mut lines: Vec<String> = vec![String::new(); scens.len()];
+    for k in order {
+        let s = &scens[k];
         let ser = run_scen(s, false);
         let par = if let Scen::Batch(_) = s { Some(run_scen(s, true)) } else { None };
         if let Some(d) = &dump {
@@ -488,8 +495,9 @@ fn child_main(r: &mut Rng, tier: &str) -> ! {
         }
         let text = if let Scen::Validate(_) = s { Some(ser.raw.clone()) } else { None };
         let line = json!({"k": k, "kind": s.kind(), "ser": out_json(&ser), "par": par.as_ref().map(out_json), "threads": threads_now(), "text": text});
-        let _ = writeln!(so, "{}", line);
+        lines[k] = line.to_string();
     }
+    for l in &lines { let _ = writeln!(so, "{}", l); }
     let _ = so.flush();
     std::process::exit(0)
 }
@@ -499,11 +507,15 @@ struct Child {
     handle: std::process::Child,
 }
 
+static CHILD_NO: std::sync::atomic::AtomicUsize = std::sync::atomic::AtomicUsize::new(0);
+
 fn spawn_child(pool: usize, tier: &str, seed: u64) -> Option<Child> {
     let exe = std::env::current_exe().ok()?;
+    let no = CHILD_NO.fetch_add(1, std::sync::atomic::Ordering::SeqCst);
     let h = std::process::Command::new(exe)
         .args(["run", "det", "--tier", tier, "--seed", &seed.to_string(), "--out", "/dev/null"])
         .env("VERIF_DET_CHILD", "1")
+        .env("VERIF_DET_ORDER", if no % 2 == 1 { "rev" } else { "fwd" })
         .env("RAYON_NUM_THREADS", pool.to_string())
         .stdin(std::process::Stdio::null())
         .stdout(std::process::Stdio::piped())
